@@ -163,7 +163,10 @@ public:
    DynamicBitsetIterator( T* dbs, ssize_t startpos):
       DynamicBitsetIteratorBase< T>( dbs, startpos)
    {
-      if (!mpDynBitset->test( mCurrPos))
+      // start position not in the bitset (e.g. empty bitset): same as end()
+      if (static_cast< size_t>( mCurrPos) >= mpDynBitset->size())
+         mCurrPos = mpDynBitset->size();
+      else if (!mpDynBitset->test( mCurrPos))
          forward();
    } // DynamicBitsetIterator< T>::DynamicBitsetIterator
 
@@ -275,7 +278,11 @@ public:
    DynamicBitsetReverseIterator( T* dbs, ssize_t startpos):
       DynamicBitsetIteratorBase< T>( dbs, startpos)
    {
-      if (!mpDynBitset->test( mCurrPos))
+      // start position not in the bitset (e.g. empty bitset): same as rend()
+      if ((mCurrPos < 0)
+          || (static_cast< size_t>( mCurrPos) >= mpDynBitset->size()))
+         mCurrPos = -1;
+      else if (!mpDynBitset->test( mCurrPos))
          reverse();
    } // DynamicBitsetIterator< T>::DynamicBitsetIterator
 
